@@ -610,10 +610,10 @@ def int_column_model(ctx, tk, rule, Ns=(1, 2, 3), col_steps=(1, 2, -1)):
             else:
                 if res is REFUSED:
                     ok += 1
-                elif isinstance(res, Obj):
+                elif isinstance(res, Obj) and not I.undecided:
                     bad.append((name, "is not refused: it addresses raw offset %s, a cell of another row" % (res.args[0],)))
                 else:
-                    unk += 1
+                    unk += 1        # (a refusing path whose condition the model cannot evaluate may exist)
         if bad:
             for name, detail in bad[:4]:
                 ctx.violated(rule, m, what % (N, C), "column %s %s" % (name, detail), key="intcol:N=%d,C=%d:%s" % (N, C, name), engine="E9")
